@@ -19,3 +19,9 @@ mod c33_referral;
 mod c20_permissions;
 #[cfg(kani)]
 mod c32_builder_fee;
+#[cfg(kani)]
+mod acct;
+#[cfg(kani)]
+mod c21_revertible;
+#[cfg(kani)]
+mod c22_balances;
